@@ -72,6 +72,17 @@ def corpus_cases(weakly):
     a, bb_, c = V(0), V(1), V(2)
     cs.append(make_case("corp-const2", 3, [(1, Not(a), bb_), (2, a, a), (3, And(Not(a), Not(a)), Not(bb_)), (4, c, Not(And(c, bb_)))],
                         [(1, Not(And(a, a)), a), (2, c, bb_)], weakly))
+    # three layers, two minimum-cardinality sets in the top layer continuing with the same middle-layer set (lex cache seed)
+    n_, m_, k_, j_, a_, s_ = V(0), V(1), V(2), V(3), V(4), V(5)
+    l3 = [(1, n_, T), (2, m_, T), (3, k_, T), (4, j_, T), (5, Not(n_), a_), (6, n_, s_), (7, a_, s_)]
+    c3 = Or(And(And(a_, m_), And(k_, j_)), And(Not(a_), Not(j_)))
+    a3 = And(And(s_, Or(Not(a_), Not(n_))), Or(a_, And(Not(m_), Not(k_))))
+    cs.append(make_case("corp-lex3layers", 6, l3, [(1, c3, a3), (2, Not(c3), a3)], weakly))
+    # upper-layer conditional listed first, incomparable lower-layer sets (System W ignore-list seed)
+    p_, b2_, w_, t_, s2_, f_ = V(0), V(1), V(2), V(3), V(4), V(5)
+    wb = [(1, Not(f_), p_), (2, b2_, p_), (3, w_, b2_), (4, t_, b2_), (5, s2_, b2_), (6, f_, b2_)]
+    alt = Or(And(And(w_, t_), Not(s2_)), And(And(Not(w_), Not(t_)), s2_))
+    cs.append(make_case("corp-wignore", 6, wb, [(1, w_, And(And(p_, f_), alt)), (2, s2_, And(And(p_, f_), alt)), (3, w_, And(p_, f_))], weakly))
     # unfalsifiable conditional
     cs.append(make_case("corp-unfals", 2, [(1, y, x), (2, x, x)], [(1, y, x), (2, Not(y), x), (3, x, y)], weakly))
     if weakly:
@@ -92,7 +103,9 @@ def gen_ops_cases(rng, count, weakly, max_atoms=5, max_conds=7, nq=6, prefix="g"
         n = rng.randrange(1, max_atoms + 1)
         m = rng.randrange(1, max_conds + 1)
         r = rng.random()
-        if r < 0.45 and n >= 2:
+        if r < 0.15 and n >= 4:
+            base = gen_base_layered(rng, n, m)
+        elif r < 0.45 and n >= 2:
             base = gen_base_hierarchy(rng, n, m)
         elif r < 0.8:
             base = gen_base_random(rng, n, m, depth=1, const_p=0.04)
@@ -129,6 +142,70 @@ def gen_ops_cases(rng, count, weakly, max_atoms=5, max_conds=7, nq=6, prefix="g"
             qs.append((nq + 2, k0[1], And(k0[2], k1[2])))
         cases.append(make_case("%s%d" % (prefix, i), n, base, qs, weakly))
     return cases
+
+
+
+def gen_base_layered(rng, n, m):
+    """Bases with >= 3 tolerance layers by construction: a chain of sub-classes c0 <- c1 <- c2 (<- c3) whose members
+    flip a property, plus several defaults (lit|Top) and (lit|c0) in the lowest layer (many incomparable correction sets)."""
+    atoms = list(range(n))
+    rng.shuffle(atoms)
+    depth = min(rng.randrange(3, 5), max(n - 1, 1))
+    chain = atoms[:depth]
+    rest = atoms[depth:] or [atoms[0]]
+    x = rest[0]
+    conds = []
+    pol = rng.random() < 0.5
+    for i in range(depth):
+        lit = V(x) if (pol ^ (i % 2 == 1)) else Not(V(x))
+        conds.append((lit, V(chain[i])))
+        if i > 0:
+            conds.append((V(chain[i - 1]), V(chain[i])))
+    for y in rest[1:]:
+        l = V(y) if rng.random() < 0.5 else Not(V(y))
+        conds.append((l, T if rng.random() < 0.6 else V(chain[0])))
+    if rng.random() < 0.5:
+        conds.append((V(chain[0]) if rng.random() < 0.5 else Not(V(chain[0])), T))
+    rng.shuffle(conds)
+    return [(i + 1, b, a) for i, (b, a) in enumerate(conds)]
+
+
+def tie_queries(rng, case, part, count=3):
+    """Queries built to tie in an upper layer: the antecedent forces the falsification of an upper-layer conditional and
+    offers two alternative falsification patterns of lower-layer conditionals; the consequent picks one of them."""
+    byk = {k: (b, a) for (k, b, a) in case["base"]}
+    fin = [l for l in (part[:-1] if case["weakly"] else part)]
+    if len(fin) < 2:
+        return []
+    out = []
+
+    def falf(k):
+        b, a = byk[k]
+        return And(a, Not(b))
+
+    def verf(k):
+        b, a = byk[k]
+        return And(a, b)
+
+    def conj(fs):
+        cur = fs[0]
+        for f in fs[1:]:
+            cur = And(cur, f)
+        return cur
+    for _ in range(count):
+        j = rng.randrange(1, len(fin))
+        up = rng.choice(fin[j])
+        lower = [k for l in fin[:j] for k in l]
+        if not lower:
+            continue
+        s1 = rng.sample(lower, min(len(lower), rng.randrange(1, 3)))
+        s2 = rng.sample(lower, min(len(lower), rng.randrange(1, 3)))
+        others = [k for k in lower if k not in s1 + s2]
+        X = conj([falf(k) for k in s1] + [verf(k) if rng.random() < 0.5 else Not(falf(k)) for k in others[:2]])
+        Y = conj([falf(k) for k in s2] + [Not(falf(k)) for k in s1 if k not in s2][:1])
+        A = And(falf(up), Or(X, Y)) if rng.random() < 0.7 else And(byk[up][1], Or(X, Y))
+        out.append((X if rng.random() < 0.7 else Not(Y), A))
+    return out
 
 
 def strata(case, mres):
